@@ -11,6 +11,13 @@
   * the union view `view mu ml p` and the `run_*` lemmas: every building block of the overlay
     (`read_path`, `exists`, `ensure_has_parent`, the whiteout bookkeeping, listings) computes a
     pure function of the two maps.
+  * after the fix of O11 (`OverlayFS::create_dir` clears the whiteout also when the write layer
+    answers `DirectoryExists`): `pCreateTail` is the pure function of the part of `create_dir`
+    after the overlay's `exists` said no (`pCreateDir` / `pCreateDirN` use it); it equals the old
+    "create, then clear" whenever the write layer does not hold the path
+    (`pCreateTail_eq_andThen`, `pCreateTail_of_not_dirExists`), and `pCreateTail_snd` describes its
+    map in every case; `run_clearWhiteoutT`: over a memory layer the tolerant clearing computes
+    the same `pClear` as the old one (a marker that exists is removable).
 -/
 import VfsModel.Proofs.AltrootLemmas
 import VfsModel.Proofs.MemRun
@@ -970,6 +977,36 @@ theorem run_clearWhiteout (cs : List Str) (hne : cs ≠ []) (hcs : ∀ c ∈ cs,
   · simp [hm, bind, M.bind, M.ret, run_vexists h.hu, run_pRemoveFile h.hu]
   · simp [hm, bind, M.bind, M.ret, run_vexists h.hu, Pure.pure, M.pure, h.hu.same]
 
+omit h in
+/-- on a memory map the removal of a key that is present never answers `FileNotFound` -/
+theorem Mem.pRemoveFile_not_nf {m : FMap} {k : Str} (hc : m.contains k = true) (pth : Option Str) :
+    (Mem.pRemoveFile m k).1 ≠ .err .fileNotFound pth := by
+  unfold Mem.pRemoveFile Mem.removeFile
+  unfold FMap.contains at hc
+  rcases Option.eq_none_or_eq_some (m.find? k) with hf | ⟨e, hf⟩
+  · rw [hf] at hc; cases hc
+  · simp only [hf]
+    split <;> simp [fail, Res.withPath]
+
+/-- the tolerant removal of the marker by `create_dir` (fix of O11): over a memory layer a marker
+that exists is removable, so it computes the same function `pClear` -/
+theorem run_clearWhiteoutT (cs : List Str) (hne : cs ≠ []) (hcs : ∀ c ∈ cs, GoodComp c) :
+    clearWhiteoutT (layers2 u l idu idl) (renderC cs) w =
+      ((pClear mu (renderC cs)).1, w.setLeafFiles u (pClear mu (renderC cs)).2) := by
+  unfold clearWhiteoutT pClear
+  rw [whiteoutPath_layers2 cs hne hcs]
+  by_cases hm : mu.contains (marker (renderC cs)) = true
+  · simp only [hm, bind, M.bind, M.ret, run_vexists h.hu, run_pRemoveFile h.hu, if_true]
+    have hnf := Mem.pRemoveFile_not_nf hm
+    cases hr : Mem.pRemoveFile mu (marker (renderC cs)) with
+    | mk r m' =>
+      rw [hr] at hnf
+      cases r with
+      | ok a => rfl
+      | err k pth => cases k <;> first | rfl | exact absurd rfl (hnf pth)
+      | panic => rfl
+  · simp [hm, bind, M.bind, M.ret, run_vexists h.hu, Pure.pure, M.pure, h.hu.same]
+
 /-- the creation of the marker by `remove_file` / `remove_dir` -/
 def pAddWhiteout (mu : FMap) (cs : List Str) : Res Unit × FMap :=
   andThen (Mem.mkdirs mu (chain [] (woDir :: cs.dropLast)))
@@ -1190,12 +1227,79 @@ theorem run_readPath_metadata {β} (cs : List Str) (hne : cs ≠ []) (hcs : ∀ 
 
 /-! #### the mutating methods as functions of the maps -/
 
+/-- what `create_dir` does once the overlay's `exists` has said no: the directory is created in the
+write layer and the marker cleared; when the write layer answers `DirectoryExists` (it holds the
+directory although the path is hidden by a marker: the state a concurrent `create_dir` leaves between
+its two steps) the marker is cleared as well before the error is returned (fix of O11) -/
+def pCreateTail (mu1 : FMap) (p : Str) : Res Unit × FMap :=
+  match Mem.pCreateDir mu1 p with
+  | (.ok _, mu2) => pClear mu2 p
+  | (.err .dirExists pth, mu2) =>
+    match pClear mu2 p with
+    | (.ok _, mu3) => (.err .dirExists pth, mu3)
+    | (.err k pth', mu3) => (.err k pth', mu3)
+    | (.panic, mu3) => (.panic, mu3)
+  | (.err k pth, mu2) => (.err k pth, mu2)
+  | (.panic, mu2) => (.panic, mu2)
+
+omit h in
+/-- the new branch is taken only when the write layer answers `DirectoryExists` -/
+theorem pCreateTail_of_not_dirExists {mu1 : FMap} {p : Str}
+    (hn : ∀ pth, (Mem.pCreateDir mu1 p).1 ≠ .err .dirExists pth) :
+    pCreateTail mu1 p = andThen (Mem.pCreateDir mu1 p) fun _ mu2 => pClear mu2 p := by
+  unfold pCreateTail andThen
+  cases hC : Mem.pCreateDir mu1 p with
+  | mk r m2 =>
+    rw [hC] at hn
+    cases r with
+    | ok a => rfl
+    | err k pth => cases k <;> first | rfl | exact absurd rfl (hn pth)
+    | panic => rfl
+
+omit h in
+theorem Mem.pCreateDir_not_dirExists {mu1 : FMap} {p : Str} (hf : mu1.find? p = none)
+    (pth : Option Str) : (Mem.pCreateDir mu1 p).1 ≠ .err .dirExists pth := by
+  have hE : Mem.ensureHasParent mu1 p = .ok () ∨ Mem.ensureHasParent mu1 p = .err .other none := by
+    unfold Mem.ensureHasParent
+    repeat' split
+    all_goals simp [fail]
+  unfold Mem.pCreateDir Mem.createDir
+  split
+  · rcases hE with hE | hE <;> simp [hE, hf, Res.withPath]
+  · simp
+
+omit h in
+/-- when the write layer does not hold the path (every sequentially reachable state in which the
+overlay's `exists` says no) the new branch is not taken: create, then clear -/
+theorem pCreateTail_eq_andThen {mu1 : FMap} {p : Str} (hf : mu1.find? p = none) :
+    pCreateTail mu1 p = andThen (Mem.pCreateDir mu1 p) fun _ mu2 => pClear mu2 p :=
+  pCreateTail_of_not_dirExists (Mem.pCreateDir_not_dirExists hf)
+
+omit h in
+/-- the map after the tail of `create_dir`: that of the write layer's `create_dir`, possibly with
+the marker cleared -/
+theorem pCreateTail_snd (mu1 : FMap) (p : Str) :
+    (pCreateTail mu1 p).2 = (Mem.pCreateDir mu1 p).2 ∨
+    (pCreateTail mu1 p).2 = (pClear (Mem.pCreateDir mu1 p).2 p).2 := by
+  unfold pCreateTail
+  cases hC : Mem.pCreateDir mu1 p with
+  | mk r m2 =>
+    cases r with
+    | ok a => exact Or.inr rfl
+    | err k pth =>
+      cases k <;> try exact Or.inl rfl
+      refine Or.inr ?_
+      dsimp only
+      cases hP : pClear m2 p with
+      | mk r3 m3 => cases r3 <;> rfl
+    | panic => exact Or.inl rfl
+
 /-- `create_dir` -/
 def pCreateDir (mu ml : FMap) (cs : List Str) : Res Unit × FMap :=
   andThen (pEnsure mu ml cs.dropLast) fun _ mu1 =>
     match view mu1 ml (renderC cs) with
     | some e => (.err (if e.ftype = .file then .fileExists else .dirExists) none, mu1)
-    | none => andThen (Mem.pCreateDir mu1 (renderC cs)) fun _ mu2 => pClear mu2 (renderC cs)
+    | none => pCreateTail mu1 (renderC cs)
 
 theorem run_ocreateDir (cs : List Str) (hne : cs ≠ []) (hcs : ∀ c ∈ cs, GoodComp c) :
     Overlay.createDir (layers2 u l idu idl) (renderC cs) w =
@@ -1216,13 +1320,18 @@ theorem run_ocreateDir (cs : List Str) (hne : cs ≠ []) (hcs : ∀ c ∈ cs, Go
       rcases Option.eq_none_or_eq_some (view mu1 ml (renderC cs)) with hv | ⟨e, hv⟩
       · simp only [hv, Option.isSome_none, Bool.false_eq_true, if_false, M.ret, M.bind,
           writePath_layers2 cs hne hcs, run_pCreateDir h1.hu]
+        unfold pCreateTail
         cases hC : Mem.pCreateDir mu1 (renderC cs) with
         | mk r2 mu2 =>
           cases r2 with
-          | err k pth => simp only [World.setLeafFiles_twice]
+          | err k pth =>
+            cases k <;> try simp only [World.setLeafFiles_twice]
+            simp only [run_clearWhiteoutT (h.setU mu2) cs hne hcs, World.setLeafFiles_twice]
+            cases hP : pClear mu2 (renderC cs) with
+            | mk r3 mu3 => cases r3 <;> rfl
           | panic => simp only [World.setLeafFiles_twice]
           | ok a2 =>
-            simp only [run_clearWhiteout (h.setU mu2) cs hne hcs, World.setLeafFiles_twice]
+            simp only [run_clearWhiteoutT (h.setU mu2) cs hne hcs, World.setLeafFiles_twice]
       · rw [hv] at hmeta
         simp only [hv, Option.isSome_some, if_true, M.bind, M.failK, fail]
         exact hmeta
@@ -1955,6 +2064,12 @@ theorem pAddWhiteout_keeps {mu : FMap} {k : Str} (cs : List Str) (h : mu.contain
   unfold pAddWhiteout
   exact andThen_keeps _ _ (mkdirs_keeps _ h) (fun _ m hm => Mem.pTouch_keeps _ hm)
 
+theorem pCreateTail_keeps {mu : FMap} {k : Str} (q : Str) (hne : k ≠ marker q)
+    (h : mu.contains k = true) : (pCreateTail mu q).2.contains k = true := by
+  rcases pCreateTail_snd mu q with he | he <;> rw [he]
+  · exact Mem.pCreateDir_keeps _ h
+  · exact pClear_keeps _ hne (Mem.pCreateDir_keeps _ h)
+
 /-- `create_dir(q)` keeps every key of the upper layer except `marker q` -/
 theorem pCreateDir_keeps {mu ml : FMap} {k : Str} (cs : List Str) (hne : k ≠ marker (renderC cs))
     (h : mu.contains k = true) : (pCreateDir mu ml cs).2.contains k = true := by
@@ -1963,7 +2078,7 @@ theorem pCreateDir_keeps {mu ml : FMap} {k : Str} (cs : List Str) (hne : k ≠ m
   intro _ m hm
   split
   · exact hm
-  · exact andThen_keeps _ _ (Mem.pCreateDir_keeps _ hm) (fun _ m2 hm2 => pClear_keeps _ hne hm2)
+  · exact pCreateTail_keeps _ hne hm
 
 /-- `create_file(q)` keeps every key of the upper layer except `marker q` -/
 theorem pCreateFile_keeps {mu ml : FMap} {k : Str} (cs : List Str) (hne : k ≠ marker (renderC cs))
